@@ -129,9 +129,10 @@ static ares_status_t init_by_defaults(ares_channel_t *channel)
   struct ares_addr addr;
   ares_llist_t    *sconfig = NULL;
 
-  /* Enable EDNS by default */
+  /* Enable EDNS by default, keeping what system configuration set
+   * (e.g. "options use-vc") */
   if (!(channel->optmask & ARES_OPT_FLAGS)) {
-    channel->flags = ARES_FLAG_EDNS;
+    channel->flags |= ARES_FLAG_EDNS;
   }
   if (channel->ednspsz == 0) {
     channel->ednspsz = EDNSPACKETSZ;
